@@ -63,9 +63,10 @@ def dataEmpty (t : TableVal) : Bool := if t.transposed then t.columns.isEmpty el
 
 def tailBlanks (t : TableVal) : List Row := (if dataEmpty t then [blankRow] else []) ++ [blankRow]
 
-/-- no written cell text contains the separator or a newline -/
+/-- no written cell text contains the separator, a newline or a carriage return (which the universal-newline
+    translation of a text file read by path turns into a newline) -/
 def CellsClean (sep : Char) (naRep : Str) (t : TableVal) : Prop :=
-  ∀ row ∈ tableCells naRep t, ∀ x ∈ row, sep ∉ x ∧ '\n' ∉ x
+  ∀ row ∈ tableCells naRep t, ∀ x ∈ row, sep ∉ x ∧ '\n' ∉ x ∧ '\r' ∉ x
 
 theorem tableLines_eq (sep : Char) (naRep : Str) (t : TableVal) :
     tableLines sep naRep t =
@@ -99,7 +100,7 @@ theorem tableLines_no_newline (sep : Char) (naRep : Str) (t : TableVal) (hsep : 
   · intro hmem
     rcases mem_joinWith sep '\n' cs hmem with e | ⟨x, hx, hxc⟩
     · exact hsep e.symm
-    · exact (hc cs hcs x hx).2 hxc
+    · exact (hc cs hcs x hx).2.1 hxc
   · by_cases hd : dataEmpty t = true <;> simp [hd] at hl
     subst hl; simp
   · simp at hl; subst hl; simp
